@@ -4,7 +4,7 @@
    No proofs. *)
 From Coq Require Import List Arith Bool ZArith QArith Qcanon.
 Import ListNotations.
-Require Import NV.C03.Model NV.C03.PtwBaseQ NV.C03.Gen_PtwQ NV.C03.Einsum.
+Require Import NV.C03.Model NV.C03.PtwBaseQ NV.C03.Gen_PtwQ NV.C03.Einsum NV.C03.Contract.
 
 Definition lift (f : Q -> Q) (x : Qc) : Qc := Q2Qc (f (this x)).
 
@@ -103,3 +103,11 @@ Definition check_einsum (iss : list (list nat)) (oss summed : list nat) (dims : 
                               (seq 0 (length shapes)))
                 (seq 0 (size oshape)) in
   eq1 val plain && eq1 val linval && eq3 M jt && eq3 MT ja.
+
+(* ---- partial contractions (sum / integrate over sub-spaces of a product domain) ------------------------------
+   val0 / cols0: value and dense Jacobian columns of the Linearization the method is applied to;
+   val1 / cols1: what the implementation returns;  w: product of the volume elements of the integrated spaces. *)
+Definition check_contract (w : Qc) (tbl : list (list nat)) (val0 : list Qc) (cols0 : list (list Qc))
+           (val1 : list Qc) (cols1 : list (list Qc)) : bool :=
+  let (v, c) := lin_contract Qc (q 0 1) Qcplus Qcmult w tbl val0 cols0 in
+  eq1 v val1 && eq2 c cols1.
